@@ -107,7 +107,7 @@ fn main() -> ExitCode {
                 return ExitCode::from(2);
             }
 
-            let config_path = args[1].to_ascii_lowercase();
+            let config_path = args[1].clone();
             config = match Config::from(PathBuf::from(&config_path)) {
                 Ok(cnf) => cnf,
                 Err(err) => {
